@@ -34,7 +34,7 @@ for pid in ["C%02d" % i for i in range(1, 21)]:
             conf["existing_test_suite_with_change"] = "FAIL" if "FAIL" in open(suite).read() else "pass"
         meta_p = os.path.join(out, "meta.json")
         meta = json.load(open(meta_p)) if os.path.exists(meta_p) else {}
-        meta.update({"property": pid, "seed": k + OFF, "round": 2 if OFF else 1, "author": "independent sub-agent given only the property text and a scratch worktree",
+        meta.update({"property": pid, "seed": k + OFF, "round": int(os.environ.get("SEEDROUND", "2" if OFF else "1")), "author": "independent sub-agent given only the property text and a scratch worktree",
                      "files_changed": files, "demo": demo, "confirmed_in_scratch_worktree": conf,
                      "how_to_run": "git -C /repo apply /verif/seeded/%s-%d/patch.diff && (cd /verif && ./check %s); git -C /repo checkout -- ." % (pid, k + OFF, pid)})
         json.dump(meta, open(meta_p, "w"), indent=1)
